@@ -614,6 +614,24 @@ func (H) Execute(x *common.Exec, s any) {
 		x.Inconclusive = "step-limit"
 		return
 	}
+	for _, t := range sc.Targets {
+		if t.Raw {
+			x.Fault("target-reports-no-or-wrong-name")
+		}
+		for _, se := range t.Sessions {
+			for _, n := range se {
+				if len(n.Dels) > 0 {
+					x.Fault("delete-in-stream")
+				}
+			}
+		}
+	}
+	if sc.Window <= 1 {
+		x.Fault("slow-transport-window-" + fmt.Sprint(sc.Window))
+	}
+	if sc.Hostile {
+		x.Fault("hostile-target-stream")
+	}
 	if collectorDone || collectorErr != nil {
 		x.Violate("C01/collector-exited", "the collector stopped: %v", collectorErr)
 		return
